@@ -569,7 +569,7 @@ def rollback_sync(ctx):
         bad = [bb for bb in cfg.order if cfg.blocks[bb].call and re.search(PRUNE, cfg.blocks[bb].call[1])]
         rets = [bb for bb in cfg.order if cfg.blocks[bb].is_return]
         qs.append(PQuery("%s: prunes / truncates nothing" % nm, cfg, {bb: [("bad", None)] for bb in bad}, [], {},
-                         key="%s:prune before the meta switch-over" % nm))
+                         scenario="c17_rollback_prune_order", key="%s:prune before the meta switch-over" % nm))
         qs.append(PQuery("%s: return is reachable" % nm, cfg, {bb: [("bad", None)] for bb in rets}, [], {}, expect="sat"))
         enc.add("%s @ nomt/src/rollback/mod.rs" % nm)
     f = _fn(prog, r"^rollback::.*::writeout_end$", "rollback/mod.rs")
